@@ -179,6 +179,7 @@ type Exec struct {
 	extUsed  map[string]bool
 	panicSeen bool
 	fnObjs    map[string]*types.Func
+	heapGo    map[string]types.Type
 	topTargets []modTarget
 }
 
@@ -213,14 +214,25 @@ func (ex *Exec) oblige(st *State, kind string, props []string, goal, desc string
 
 // heap access helpers
 
-func (ex *Exec) heapGet(st *State, key string, s *Sort) string {
+func (ex *Exec) heapGet(st *State, key string, s *Sort, elemGo ...types.Type) string {
+	if len(elemGo) > 0 && elemGo[0] != nil && ex.heapGo[key] == nil {
+		ex.heapGo[key] = elemGo[0]
+	}
 	if v, ok := st.heap[key]; ok {
 		return v
 	}
 	// first use: a symbol shared by all paths (the entry value)
 	n := sym("H0_" + key)
-	ex.w.declConst(n, s)
-	ex.heapS[key] = s
+	if !ex.w.declared[n] {
+		ex.w.declConst(n, s)
+		ex.heapS[key] = s
+		// Go's own typing invariant of the entry heap: what allocated objects point to is allocated
+		if ax := ex.heapTyping(n, key, s, sym("H0_alloc"), sym("H0_arralloc")); ax != "" {
+			ex.w.declConst(sym("H0_alloc"), ex.w.setSort(sRef))
+			ex.w.declConst(sym("H0_arralloc"), ex.w.setSort(sArrId))
+			ex.w.axioms = append(ex.w.axioms, ax)
+		}
+	}
 	st.heap[key] = n
 	if ex.entry != nil {
 		if _, ok := ex.entry.heap[key]; !ok {
@@ -228,6 +240,35 @@ func (ex *Exec) heapGet(st *State, key string, s *Sort) string {
 		}
 	}
 	return n
+}
+
+// heapTyping: forall allocated index r: the value stored at arr[r] satisfies its type invariant
+// with respect to the given allocation sets.
+func (ex *Exec) heapTyping(arr, key string, s *Sort, alloc, arralloc string) string {
+	if key == "alloc" || key == "arralloc" || s.Idx == nil || s.Elem == nil {
+		return ""
+	}
+	gt := ex.heapGo[key]
+	if strings.HasPrefix(key, "mem:") {
+		// rows of element memory
+		es := s.Elem.Elem
+		if es == nil {
+			return ""
+		}
+		inv := ex.typeInvWith(alloc, arralloc, Val{T: sSel(sSel(arr, "a"), "k"), S: es, Go: gt})
+		if inv == "true" {
+			return ""
+		}
+		return fmt.Sprintf("(forall ((a ArrId) (k Int)) (! (=> (select %s a) %s) :pattern ((select (select %s a) k))))", arralloc, inv, arr)
+	}
+	if s.Idx.Kind != KRef {
+		return ""
+	}
+	inv := ex.typeInvWith(alloc, arralloc, Val{T: sSel(arr, "r"), S: s.Elem, Go: gt})
+	if inv == "true" {
+		return ""
+	}
+	return fmt.Sprintf("(forall ((r Ref)) (! (=> (select %s r) %s) :pattern ((select %s r))))", alloc, inv, arr)
 }
 
 func (ex *Exec) heapSet(st *State, key string, s *Sort, body string) {
@@ -277,12 +318,25 @@ func (ex *Exec) newArr(st *State, base string) string {
 // typeInv returns the implicit invariant of a value of a sort in state st (assumed when a value
 // is read from a parameter, the heap or a call result).
 func (ex *Exec) typeInv(st *State, v Val) string {
+	return ex.typeInvWith(ex.allocArr(st), ex.arrAllocArr(st), v)
+}
+
+func refLike(t types.Type) bool {
+	if t == nil {
+		return false
+	}
+	switch types.Unalias(t).Underlying().(type) {
+	case *types.Pointer, *types.Map, *types.Chan:
+		return true
+	}
+	return false
+}
+
+func (ex *Exec) typeInvWith(alloc, arralloc string, v Val) string {
 	switch v.S.Kind {
 	case KRef:
-		if v.Go != nil {
-			if _, ok := types.Unalias(v.Go).Underlying().(*types.Pointer); ok {
-				return sOr(sEq(v.T, "nil"), sSel(ex.allocArr(st), v.T))
-			}
+		if refLike(v.Go) {
+			return sOr(sEq(v.T, "nil"), sSel(alloc, v.T))
 		}
 		return "true"
 	case KSlice:
@@ -292,12 +346,12 @@ func (ex *Exec) typeInv(st *State, v Val) string {
 			fmt.Sprintf("(<= 0 (s_len %s))", t),
 			fmt.Sprintf("(<= (s_len %s) (s_cap %s))", t, t),
 			fmt.Sprintf("(=> (= (s_arr %s) nilarr) (and (= (s_len %s) 0) (= (s_cap %s) 0) (= (s_off %s) 0)))", t, t, t, t),
-			fmt.Sprintf("(=> (not (= (s_arr %s) nilarr)) (select %s (s_arr %s)))", t, ex.arrAllocArr(st), t),
+			fmt.Sprintf("(=> (not (= (s_arr %s) nilarr)) (select %s (s_arr %s)))", t, arralloc, t),
 		)
 	case KStruct:
 		var cs []string
 		for _, f := range v.S.Fields {
-			cs = append(cs, ex.typeInv(st, Val{T: sApp(f.Sel, v.T), S: f.S, Go: f.Go}))
+			cs = append(cs, ex.typeInvWith(alloc, arralloc, Val{T: sApp(f.Sel, v.T), S: f.S, Go: f.Go}))
 		}
 		return sAnd(cs...)
 	}
